@@ -33,6 +33,7 @@ def run(ctx):
     ctx.rule('C04.R5', 'no result of a mutating step is discarded', floor=5)
     ctx.rule('C04.R6', 'remote shell templates: holes quoted+escaped or integer; xargs lists NUL-delimited', floor=7)
     ctx.rule('C04.R7', 'direction dispatch and host:path parsing', floor=5)
+    ctx.rule('C04.R8', 'the remote listing is used only when the listing command succeeded (a partial listing is never taken for the tree)', floor=1)
     eff = Effects(F)
     r1(ctx, F)
     C15.delete_sources(ctx, F, 'C04.R1')
@@ -41,6 +42,7 @@ def run(ctx):
     r5(ctx, F, eff)
     r6(ctx, F)
     r7(ctx, F)
+    r8(ctx, F)
 
 
 def capture_origins(F, body, op):
@@ -631,3 +633,25 @@ def r7(ctx, F):
         good = good and chars == sorted([ord('/'), ord('\\')])
     ctx.check(good, 'C04.R7', 'FileLocation::parse', 'Remote only if the text before the first colon is longer than 1 and contains no / or \\',
               'FileLocation::parse classifies a path as remote without a >1-char separator-free host prefix', loc(p, p.lo))
+
+
+def r8(ctx, F):
+    """discover_remote_with_meta: an Ok(listing) is returned only under the success edge of the remote command's exit status.
+    `find` exits non-zero after printing part of the tree (unreadable directory, connection drop): treating that output as the
+    whole tree makes --delete remove files whose sources exist and silently skips the unlisted ones."""
+    t = work_body(F, 'meta::discover_remote_with_meta', ['std::process::ExitStatus::success'])
+    if t is None:
+        t = work_body(F, 'meta::discover_remote_with_meta', ['meta::parse_remote_meta_output'])
+    if t is None:
+        ctx.missing('C04.R8', 'meta::discover_remote_with_meta')
+    fl = flow_of(t)
+    oks = ok_assign_blocks(t, 'Ok')
+    succ = fl.calls(lambda c: c == 'std::process::ExitStatus::success')
+    if not oks:
+        ctx.missing('C04.R8', 'discover_remote_with_meta: an Ok return')
+    good = bool(succ)
+    for ob in oks:
+        good = good and any(fl.outcomes(sb).get('true') and fl.cfg.edges_guard(fl.outcomes(sb)['true'], ob) for sb, _ in succ)
+    ctx.check(good, 'C04.R8', 'discover_remote_with_meta:Ok-only-on-success', 'Ok(listing) guarded by status.success()',
+              'the remote listing is returned as Ok although the listing command exited non-zero: a partial `find` output is taken for the whole tree '
+              '(with --delete, files whose sources exist are removed; without it they are silently not delivered; exit 0)', loc(t, t.lo))
